@@ -237,7 +237,7 @@ def check_generate(case, ctx):
 @st.composite
 def _norm_cases(draw, tier):
     c = draw(_kv_cases(tier))
-    c["bad"] = draw(st.sampled_from(["short", "long", "decreasing", "decreasing", "reversed", "none"]))
+    c["bad"] = draw(st.sampled_from(["short", "long", "decreasing", "decreasing", "reversed", "none", "all-equal"]))
     c["pos"] = draw(st.integers(0, 63))
     c["kind"] = draw(st.sampled_from(["curve", "surface_u", "surface_v", "volume_w"]))
     return c
@@ -261,7 +261,9 @@ def check_normalize_reject(case, ctx):
     bad = case["bad"]
     if bad == "none":
         return
-    if bad == "short":
+    if bad == "all-equal":
+        bkv = [kv[0]] * len(kv)          # not claimed to be rejected; only "if it is refused, it is not stored" is asserted below
+    elif bad == "short":
         bkv = kv[:-1]
     elif bad == "long":
         bkv = kv + [kv[-1]]
@@ -273,34 +275,54 @@ def check_normalize_reject(case, ctx):
         i = distinct[case["pos"] % len(distinct)]
         bkv = list(kv)
         bkv[i], bkv[i + 1] = bkv[i + 1], bkv[i]
-    ctx.check(knotvector.check(p, bkv, n) is False, "check-rejects", "check accepts invalid vector (%s): %r p=%d n=%d" % (bad, bkv, p, n))
-    # object setters reject it too
+    if bad != "all-equal":
+        ctx.check(knotvector.check(p, bkv, n) is False, "check-rejects", "check accepts invalid vector (%s): %r p=%d n=%d" % (bad, bkv, p, n))
+    # object setters reject it too - on a fresh object and on one that already holds a valid vector, which it then keeps
     kind = case["kind"]
-    raised = False
-    try:
+    for holds_valid in (False, True):
         if kind == "curve":
             o = BSpline.Curve()
             o.degree = p
             o.ctrlpts = [[float(i), 0.0] for i in range(n)]
-            o.knotvector = bkv
+            attr, mid = "knotvector", None
         elif kind in ("surface_u", "surface_v"):
             o = BSpline.Surface()
             o.degree_u = p if kind == "surface_u" else 1
             o.degree_v = p if kind == "surface_v" else 1
             nu, nv = (n, 2) if kind == "surface_u" else (2, n)
             o.set_ctrlpts([[float(i), float(j), 0.0] for i in range(nu) for j in range(nv)], nu, nv)
-            if kind == "surface_u":
-                o.knotvector_u = bkv
-            else:
-                o.knotvector_v = bkv
+            attr = "knotvector_u" if kind == "surface_u" else "knotvector_v"
+            setattr(o, "knotvector_v" if kind == "surface_u" else "knotvector_u", [0.0, 0.0, 1.0, 1.0])
         else:
             o = BSpline.Volume()
             o.degree_u, o.degree_v, o.degree_w = 1, 1, p
             o.set_ctrlpts([[float(i), float(j), float(k)] for k in range(n) for i in range(2) for j in range(2)], 2, 2, n)
-            o.knotvector_w = bkv
-    except ValueError:
-        raised = True
-    ctx.check(raised, "setter-rejects", "%s knot vector setter accepted an invalid vector (%s): %r" % (kind, bad, bkv))
+            attr = "knotvector_w"
+            o.knotvector_u = [0.0, 0.0, 1.0, 1.0]
+            o.knotvector_v = [0.0, 0.0, 1.0, 1.0]
+        before = None
+        if holds_valid:
+            setattr(o, attr, list(kv))
+            stored = list(getattr(o, attr))
+            prm = {"curve": 0.375, "surface_u": (0.375, 0.5), "surface_v": (0.5, 0.375), "volume_w": (0.5, 0.5, 0.375)}[kind]
+            before = (stored, list(o.evaluate_single(prm)))
+        raised = False
+        try:
+            setattr(o, attr, list(bkv))
+        except ValueError:
+            raised = True
+        except Exception:
+            raised = bad == "all-equal"          # whatever refuses a vector without any non-empty span
+            if not raised:
+                raise
+        if bad != "all-equal":
+            ctx.check(raised, "setter-rejects", "%s knot vector setter accepted an invalid vector (%s): %r" % (kind, bad, bkv))
+        if raised and before is not None:
+            now = list(getattr(o, attr))
+            ctx.check(now == before[0], "rejected-vector-stored",
+                      "%s: the refused vector (%s) %r replaced the valid one: stored %r, before %r" % (attr, bad, bkv, now, before[0]))
+            pt = list(o.evaluate_single(prm))
+            ctx.check(pt == before[1], "rejected-vector-stored", "%s: after a refused assignment (%s) the shape evaluates to %r, before %r" % (attr, bad, pt, before[1]))
 
 
 SUBCHECKS = [
